@@ -162,7 +162,21 @@ static double bits2d(uint64_t u) { double f; memcpy(&f, &u, 8); return f; }
 static __thread const unsigned char* rec_base;
 static __thread int rec_count;
 static __thread bool rec_offsets = true;
-static void rec_sep(void) { if (rec_count++) ob_printf(","); }
+/* HX_REENTER: every recording callback first decodes another (tiny) buffer with the library's empty callbacks - a client
+   that tokenises an embedded item from inside a callback, as the API allows.  The outer call's result must not notice:
+   anything the decoder keeps outside its own frame (a static result, a remembered pointer) is clobbered by the inner call. */
+static __thread int rec_reenter = -1;
+static void rec_sep(void) {
+  if (rec_reenter < 0) rec_reenter = getenv("HX_REENTER") != NULL;
+  if (rec_reenter) {
+    static const unsigned char inner[3] = {0x19, 0x01, 0x02};
+    struct cbor_decoder_result ir = cbor_stream_decode(inner, 3, &cbor_empty_callbacks, NULL);
+    if (ir.status != CBOR_DECODER_FINISHED || ir.read != 3) ob_printf("INNER=%d/%zu ", (int)ir.status, ir.read);
+    struct cbor_decoder_result ir2 = cbor_stream_decode(inner, 1, &cbor_empty_callbacks, NULL);
+    if (ir2.status != CBOR_DECODER_NEDATA || ir2.read != 0 || ir2.required != 3) ob_printf("INNER2=%d/%zu/%zu ", (int)ir2.status, ir2.read, ir2.required);
+  }
+  if (rec_count++) ob_printf(",");
+}
 static void r_uint8(void* c, uint8_t v) { (void)c; rec_sep(); ob_printf("u8:%u", v); }
 static void r_uint16(void* c, uint16_t v) { (void)c; rec_sep(); ob_printf("u16:%u", v); }
 static void r_uint32(void* c, uint32_t v) { (void)c; rec_sep(); ob_printf("u32:%u", v); }
@@ -303,15 +317,18 @@ static void do_enc(char* line) {
   char e[64]; char vs[64]; size_t n;
   if (sscanf(line, "%63s %63s %zu", e, vs, &n) != 3) { ob_printf("BADCASE"); return; }
   uint64_t v = parse_u64(vs);
-  unsigned char* b1 = malloc(n); unsigned char* b2 = malloc(n);
-  memset(b1, 0xA5, n); memset(b2, 0x5A, n);
+  /* a buffer_size beyond 4096 is the client saying "plenty of room" (SIZE_MAX, PTRDIFF_MAX + 1, ...): the encoders write at most
+     9 bytes, so a 32-byte block stands for it and the image is taken over those 32 bytes */
+  size_t blk = n > 4096 ? 32 : n;
+  unsigned char* b1 = malloc(blk); unsigned char* b2 = malloc(blk);
+  memset(b1, 0xA5, blk); memset(b2, 0x5A, blk);
   bool known;
   a_reset();
   size_t r1 = call_encoder(e, v, b1, n, &known);
   size_t r2 = call_encoder(e, v, b2, n, &known);
   if (!known) { ob_printf("BADCASE"); } else {
     ob_printf("%zu ", r1);
-    ob_image(b1, b2, n);
+    ob_image(b1, b2, blk);
     if (r1 != r2) ob_printf(" NONDET");
     if (a_requests) ob_printf(" ALLOCS=%lu", a_requests);
   }
@@ -1121,6 +1138,16 @@ int main(int argc, char** argv) {
   if (argc < 2) { fprintf(stderr, "usage: hx <stream> [params]\n"); return 2; }
   const char* stream = argv[1];
   hx_devnull = fopen("/dev/null", "w");
+#if defined(__x86_64__) || defined(__i386__)
+  /* HX_FPENV=ftzdaz: the client runs with flush-to-zero / denormals-are-zero set in MXCSR (audio / DSP code does).  The
+     library moves float payloads as bits (memcpy, unions, register moves), so nothing it does may depend on the floating-point
+     environment: a conversion instruction on the payload path would flush subnormals.  (The harness itself never computes with
+     the floats: it prints bit patterns through memcpy.) */
+  if (getenv("HX_FPENV") && !strcmp(getenv("HX_FPENV"), "ftzdaz")) {
+    unsigned int csr = __builtin_ia32_stmxcsr();
+    __builtin_ia32_ldmxcsr(csr | 0x8040u);
+  }
+#endif
   if (!strcmp(stream, "config")) {
     /* version constants: the three static consts of common.h, the CBOR_VERSION string and CBOR_HEX_VERSION must tell the same story */
     char vs[64]; snprintf(vs, sizeof vs, "%u.%u.%u", (unsigned)cbor_major_version, (unsigned)cbor_minor_version, (unsigned)cbor_patch_version);
